@@ -3,6 +3,7 @@ package gen
 import (
 	"encoding/json"
 	"fmt"
+	"sort"
 	"strconv"
 	"strings"
 
@@ -224,6 +225,46 @@ func foreignTraces(r *rng.R, g *ach.File, ascending bool) bool {
 	return touched
 }
 
+// shortTraces numbers the entries of every standard forward batch with bare integers, ascending in the raw
+// string order Batch.isSequenceAscending uses ("10" < "117" < "9").
+func shortTraces(r *rng.R, g *ach.File) bool {
+	if len(g.IATBatches) > 0 {
+		return false
+	}
+	touched := false
+	used := map[int]bool{}
+	for _, b := range g.Batches {
+		if !forwardStd(b) {
+			return false
+		}
+		es := b.GetEntries()
+		var ks []string
+		for len(ks) < len(es) {
+			k := r.Range(1, 400)
+			if !used[k] {
+				used[k] = true
+				ks = append(ks, strconv.Itoa(k))
+			}
+		}
+		sort.Strings(ks)
+		for i, e := range es {
+			if e.IndividualName == "OFFSET" {
+				return false
+			}
+			e.TraceNumber = ks[i]
+			n, _ := strconv.Atoi(ks[i])
+			for _, a := range e.Addenda05 {
+				a.EntryDetailSequenceNumber = n
+			}
+			if e.Addenda02 != nil {
+				e.Addenda02.TraceNumber = e.TraceNumber
+			}
+			touched = true
+		}
+	}
+	return touched
+}
+
 // special holds characters isAlphanumeric refuses: they need AllowSpecialCharacters.
 var special = []rune{0xA7, 0xA9, 0xB5, 0x0100, 0x017E, 0x20AC, 0x2022}
 
@@ -266,6 +307,13 @@ var optVariants = []*OptVariant{
 		Name: "bypass-origin-traces", Flag: "BypassOriginValidation", Level: "batch", Base: forwardFile,
 		set:    func(o *ach.ValidateOpts) { o.BypassOriginValidation = true },
 		damage: func(r *rng.R, g *ach.File) bool { return foreignTraces(r, g, true) },
+	},
+	{
+		// trace numbers stored as bare sequence numbers of mixed lengths ("9", "10", "117"): the written field is
+		// zero-padded, the strings the library orders, keys and compares are not
+		Name: "short-trace-numbers", Flag: "BypassOriginValidation", Level: "batch", Base: stdForwardFile,
+		set:    func(o *ach.ValidateOpts) { o.BypassOriginValidation = true },
+		damage: shortTraces,
 	},
 	{
 		Name: "bypass-destination", Flag: "BypassDestinationValidation", Level: "file", Base: advOrAny,
@@ -723,9 +771,19 @@ func NeedsOptsVariant(r *rng.R, f *ach.File, v *OptVariant) (out *ach.File) {
 		return nil
 	}
 	deep := v.Level == "record" || r.Chance(1, 3)
-	if deep {
+	switch {
+	case deep:
 		ApplyOptsDeep(g, o)
-	} else {
+	case v.Level == "batch" && !v.Stale && r.Chance(1, 4):
+		// the options live on the batches only (Batch.SetValidation / what MergeFiles leaves per batch); the
+		// file carries none
+		for _, b := range g.Batches {
+			b.SetValidation(o)
+		}
+		for i := range g.IATBatches {
+			g.IATBatches[i].SetValidation(o)
+		}
+	default:
 		ApplyOpts(g, o)
 	}
 	if err := retabulate(g, v.Stale); err != nil {
